@@ -125,6 +125,7 @@ theorem range_first_stops (reg : Registry) (xs : List Bytes) (m : Int) (x : Byte
   intro s hg hd
   rw [writeNode]
   simp only [loopParts_plain a b inner hcf, Option.map_none]
+  rw [rloopQB_plain_fn _ _ spec (by decide)]
   have hs0 : ({ s with c := { s.c with brkD := 0 } } : St) = s := by
     cases s with | mk c w => cases c; simp at hd; subst hd; rfl
   obtain ⟨k, v, ik, hgs, hbd, hw, hstop⟩ :=
@@ -177,6 +178,7 @@ theorem range_carries_on (reg : Registry) (xs : List Bytes) (m : Int) (x : Bytes
   intro s hg hd
   rw [writeNode]
   simp only [loopParts_plain a b inner hcf, Option.map_none]
+  rw [rloopQB_plain_fn _ _ spec (by decide)]
   have hs0 : ({ s with c := { s.c with brkD := 0 } } : St) = s := by
     cases s with | mk c w => cases c; simp at hd; subst hd; rfl
   have hrun : ∀ st, Good xs m st → st.c.brkD = 0 →
